@@ -30,6 +30,34 @@ func findSegmentWithID(seqNo int, segments []*playlist.MediaSegment, id int) (*p
 	return segments[index], index, len(segments) - index
 }
 
+// segmentByteRangeStart returns the start of the sub-range of a segment.
+// If the offset is not present, the sub-range begins at the next byte
+// following the sub-range of the previous segment (RFC 8216, 4.3.2.2).
+func segmentByteRangeStart(segments []*playlist.MediaSegment, pos int) *uint64 {
+	seg := segments[pos]
+	if seg.ByteRangeLength == nil || seg.ByteRangeStart != nil {
+		return seg.ByteRangeStart
+	}
+
+	start := uint64(0)
+
+	for i := pos - 1; i >= 0; i-- {
+		prev := segments[i]
+		if prev.ByteRangeLength == nil || prev.URI != seg.URI {
+			break
+		}
+
+		start += *prev.ByteRangeLength
+
+		if prev.ByteRangeStart != nil {
+			start += *prev.ByteRangeStart
+			break
+		}
+	}
+
+	return &start
+}
+
 func dateTimeOfPreloadHint(pl *playlist.Media) *time.Time {
 	if len(pl.Segments) == 0 {
 		return nil
@@ -342,7 +370,7 @@ func (d *clientStreamDownloader) fillSegmentQueue(
 	v := pl.MediaSequence + segPos
 	d.curSegmentID = &v
 
-	byts, err := d.downloadSegment(ctx, seg.URI, seg.ByteRangeStart, seg.ByteRangeLength)
+	byts, err := d.downloadSegment(ctx, seg.URI, segmentByteRangeStart(pl.Segments, segPos), seg.ByteRangeLength)
 	if err != nil {
 		return err
 	}
